@@ -500,6 +500,9 @@ def gen_main(src):
             'else if (tok->has_space && !tok->at_bol) fprintf(out, " "); '
             'else if (prev && !tok->at_bol && need_space(prev, tok)) fprintf(out, " "); '
             'fprintf(out, "%.*s", tok->len, tok->loc); line++; prev = tok; } fprintf(out, "\\n");')
+    # after the last newline the stream may be flushed/closed (prints nothing): `close_file(out, opt_o);`
+    if body.startswith(want) and body[len(want):].strip() in ('', 'close_file(out, opt_o);'):
+        body = want
     if body != want:
         raise ExtractError('print_tokens changed (hand model Model/PrintTokens.lean was written after another text): ' + body)
     return out
